@@ -89,6 +89,59 @@ CLAIMS.update({
         ref="DESIGN.md §3 C20"),
 })
 
+CLAIMS.update({
+    "C01": dict(
+        technique="static analysis: guard-before-act and contradiction rules on typed THIR (side-effect guard before every dropping act, multi-value guard before every hoist, tail-only accumulators), visitor reachability",
+        text="For all programs, the three mechanisms the property anchors are wired at every site: each dropping/folding act of the default rules is "
+             "control-dependent on has_side_effects, each operand hoisted into its parent's place is parenthesised under can_return_multiple_values "
+             "(two sites pinned by existing tests are known findings), kept effectful expressions stay in order, every default rule reaches all nesting "
+             "positions (C07.visit). Behavioural equivalence of the rewrites is NOT decided.",
+        note="has_side_effects/can_return_multiple_values/evaluate trusted as analyses (skeleton under C08). " + TB, ref="DESIGN.md §3 C01"),
+    "C02": dict(
+        technique="static analysis: decision tables extracted from the precedence/associativity/parenthesis functions and should_break_with_space (pattern ranges expanded) vs independent Lua grammar/lexer tables; guard-before-act rules in the three generators; who-may table for fusion-check bypasses",
+        text="For all trees: the precedence/associativity tables realise the Lua order, the needs-parentheses functions equal the grammar's rule on every "
+             "atom assignment, all three generators wrap operands/`;` exactly under those guards, every character pair Lua's lexer would fuse is separated, "
+             "raw writes cannot fuse. Line wrapping and literal text are not decided.",
+        note="One-sided relations (extra spaces/parentheses are harmless). " + TB, ref="DESIGN.md §3 C02"),
+    "C05": dict(
+        technique="static analysis: visitor-driver typestate from resolved generic arguments, provenance (source-call) rule on the module key, MIR push/pop pairing, error-recording rules",
+        text="For all module graphs: every traversal that can inline a require tracks scopes, the path used as module key always comes from the locator "
+             "applied to this call's literal and the current source (no memo), the cycle stack is popped on every exit, every failure is recorded and "
+             "reported, module order is insertion order. The wrapper's run-time semantics is not decided.", note=TB, ref="DESIGN.md §3 C05"),
+    "C06": dict(
+        technique="static analysis: subset relation between variant tables (duplicated-without-temporary vs constant-false has_side_effects), visitor typestate, multi-value guards, fold-direction sibling rule, conservative-unknown rule",
+        text="For all programs: what remove_compound_assignment duplicates is effect-free by has_side_effects' own table, scope-dependent lowering "
+             "rules are scope-driven, hoists are multi-value guarded, right-nested chains are folded from the last element (branch order = evaluation "
+             "order), unknown truthiness takes the boxed if-expression form, temporaries are collision-checked. `continue` lowering in repeat-until and "
+             "formatting semantics are not decided.", note=TB, ref="DESIGN.md §3 C06"),
+    "C08": dict(
+        technique="static analysis: decision tables of the evaluator's match expressions vs the soundness skeleton of an abstract domain",
+        text="For all expressions: opaque leaves evaluate to Unknown, calls are always effectful, unknown operands may carry metatables, multi-value "
+             "sources are flagged, truthiness is unknown exactly for Unknown and nothing unknown is materialised. Numeric/string results are NOT decided "
+             "(they need execution).", note="Only the table skeleton. " + TB, ref="DESIGN.md §3 C08"),
+    "C09": dict(
+        technique="static analysis: event-order rules on both scope visitors, complete identifier-slot classification over the AST type graph, guard rules on name generation and recycling",
+        text="For all programs: Lua's visibility rules hold as ordering constraints between push/insert/visit/pop in both scope visitors, every "
+             "identifier slot is classified and only references/declarations reach the renamer, generated names are pooled or filtered against "
+             "keywords/globals/function names collected before the walk, and only names flagged reusable are recycled. Pool/global interaction with detection off is not decided.",
+        note=TB, ref="DESIGN.md §3 C09"),
+    "C14": dict(
+        technique="static analysis: guard-before-act rule (is_valid_identifier) at every construction of a name from a run-time string, keyword table, totality of the serializer's method set",
+        text="For all documents: a key is emitted as a bare name only under is_valid_identifier (which refuses the 21 reserved words, the empty string and "
+             "a leading digit); every other key takes the bracketed string form; no serialize_* method drops its value. Literal text (C13) is not decided.",
+        note=TB, ref="DESIGN.md §3 C14"),
+    "C16": dict(
+        technique="static analysis: decision table over count orderings + guard-before-act rules for the four anchored guards, subset rule for duplicated receivers, visitor typestate",
+        text="For all programs, the anchored guards hold: merging only with balanced first declaration and after scanning all values for all variables, "
+             "local-function conversion only without self reference, `self` prepended exactly for methods, receivers duplicated only when effect-free, "
+             "scope-aware sqrt conversion scope-driven. Full semantics of the refactorings are not decided.", note=TB, ref="DESIGN.md §3 C16"),
+    "C17": dict(
+        technique="static analysis: visitor typestate, sibling-callback guard rule (is_identifier_used before every rewrite), matcher constant agreement, keep/order rules on kept arguments",
+        text="For all programs: every rewrite in the scope-aware removal/injection processors is guarded by the scope query (sibling callbacks agree), "
+             "matchers query the scope for the very name they match, arguments are kept exactly when effectful and stay in source order. Execution "
+             "equivalence with the modified environment is not decided.", note=TB, ref="DESIGN.md §3 C17"),
+})
+
 NOT_APPLICABLE = {
     "C13": "literal round-trip equality is arithmetic on bytes and doubles (escape padding, shortest float repr, quote choice by content): "
            "no clause is visible in the shape of the code beyond what unit tests already pin; static analysis cannot bound these runtime values",
